@@ -161,6 +161,7 @@ class SymEx:
         self.notes = []
         self.temp_id = 0
         self.loop_idx = []
+        self.cur_target = None
 
     # ------------------------------------------------------------------ utilities
     def fresh(self, prefix):
@@ -311,7 +312,11 @@ class SymEx:
                     if lv is not None:
                         self.write(st, ('lv', this_lv[1], this_lv[2] + (('f', name),)), ('ref', lv))
                         continue
-                v = self.eval_init(st, e, ftype)
+                self.cur_target = name
+                try:
+                    v = self.eval_init(st, e, ftype)
+                finally:
+                    self.cur_target = None
                 self.write(st, ('lv', this_lv[1], this_lv[2] + (('f', name),)), v)
             elif kind == 'base':
                 # base class constructor runs on the same object
@@ -354,6 +359,15 @@ class SymEx:
             self.copy_fields_into(st, this_lv, v)
             return
         rec = self.p.record_of_type(e.a.get('type'))
+        if rec is not None and strip_targs(rec.qualname) in self.opaque:
+            vals = [self.snap(st, self.eval(st, a)) for a in e.k if a.op != 'defaultarg']
+            res = ('new', rec.qualname, self.fresh('n')) + tuple(vals)
+            self.effect(st, 'hcall', name=strip_targs(rec.qualname) + '::ctor', args=vals,
+                        where=e.where(), node=e.cid, target='<base>', rectype=rec.qualname, result=res)
+            cur = self.read(st, this_lv)
+            if isinstance(cur, tuple) and cur[0] == 'obj' and cur[2] is None:
+                self.write(st, this_lv, ('obj', cur[1], res, cur[3]))
+            return
         ctor = self.p.ctor_for(rec, e.a.get('ctype'), len(e.k)) if rec else None
         if ctor is None or ctor.body is None:
             if rec is not None and len(e.k) == 0:
@@ -982,6 +996,11 @@ class SymEx:
             info['kind'] = 'append'
             info['guard'], info['body'] = a
             return
+        if isinstance(nxt, tuple) and nxt[0] == 'vscatter' and nxt[1] == pre:
+            info['kind'] = 'accum'
+            info['body'] = nxt
+            info['final'] = ('vaccum', info['init'], isym, lo, hi, nxt)
+            return
         if isinstance(nxt, tuple) and nxt[0] == 'vcomp' and nxt[1] == pre and \
                 not any(occurs(x, pre) for x in nxt[2:]):
             # an inner loop appends a whole run per outer iteration
@@ -997,6 +1016,14 @@ class SymEx:
         info['kind'] = 'havoc'
         info['why'] = 'no map/reduce/append idiom'
         info['final'] = ('havoc', ls.id, info['label'])
+        try:
+            # a body that only overwrites elements keeps the size of the container
+            if size(nxt) == size(pre) and size(pre) != ('size', pre):
+                T.SIZES[info['final']] = size(info['init'])
+            elif size(nxt) == ('size', pre):
+                T.SIZES[info['final']] = size(info['init'])
+        except Exception:
+            pass
 
     def match_vupd(self, nxt, pre, isym):
         """nxt == vupd(pre, isym, val) possibly under ite; returns val (in terms of sel(pre,i))."""
@@ -1466,8 +1493,12 @@ class SymEx:
                 return ('conv', t, vals[0])
             return ('new', t) + tuple(vals)
         if strip_targs(rec.qualname) in self.opaque:
-            vals = [self.eval(st, a) for a in args if a.op != 'defaultarg']
-            return ('new', rec.qualname) + tuple(vals)
+            vals = [self.snap(st, self.eval(st, a)) for a in args if a.op != 'defaultarg']
+            res = ('new', rec.qualname, self.fresh('n')) + tuple(vals)
+            self.effect(st, 'hcall', name=strip_targs(rec.qualname) + '::ctor', args=vals,
+                        where=e.where(), node=e.cid, target=self.cur_target, rectype=rec.qualname,
+                        result=res)
+            return res
         ctor = self.p.ctor_for(rec, e.a.get('ctype'), len(args))
         tmp = self.new_temp(st, mkobj(rec.qualname, {}), 'obj')
         if ctor is None or ctor.body is None:
@@ -1696,8 +1727,15 @@ class SymEx:
             this_lv = self.eval_lv(st, objnode)
             if this_lv is None:
                 this_lv = self.new_temp(st, self.eval(st, objnode))
+        # Base::method(...) called on *this from a member of a derived class is a qualified,
+        # non-virtual call
+        qualified = False
+        if f.is_virtual and objnode.op == 'this' and self.frames and self.frames[-1].func is not None:
+            cur = getattr(self.frames[-1].func, 'record', None)
+            if cur is not None and f.record is not None and cur is not f.record:
+                qualified = True
         # virtual dispatch on the dynamic type if it is known
-        if f.is_virtual:
+        if f.is_virtual and not qualified:
             val = self.read(st, this_lv)
             dt = self.dynamic_type(st, objnode, val)
             if dt is not None:
@@ -1842,7 +1880,16 @@ class SymEx:
             cands.sort(key=score, reverse=True)
             if len(args) == 1 and len(cands) > 1 and score(cands[0]) == score(cands[1]):
                 cands = []
-        if not cands or strip_targs(rec.qualname) in self.opaque:
+        if strip_targs(rec.qualname) in self.opaque:
+            vals = [self.snap(st, self.eval(st, a)) for a in args]
+            lvv = self.eval_lv(st, objnode)
+            res = ('new', rec.qualname, self.fresh('n')) + tuple(vals)
+            self.effect(st, 'hcall', name=strip_targs(rec.qualname) + '::ctor', args=vals,
+                        where=e.where(), node=e.cid,
+                        target=self.lv_label(lvv) if lvv is not None else None, rectype=rec.qualname,
+                        result=res)
+            return res
+        if not cands:
             vals = [self.eval(st, a) for a in args]
             if len(vals) == 1 and isinstance(vals[0], tuple) and vals[0][0] == 'obj':
                 return vals[0]
